@@ -17,7 +17,8 @@ def build(pid, P, R, tier, log_dir):
     import mirx_props as mp
     if pid != "C14":
         return []
-    return [mp.XOb("X-import_visibility", "", "", lambda: run_visibility(P, R, mp, log_dir, 3 if tier == "quick" else 4)),
+    # (the visibility obligation is not deepened in the thorough tier: 4 exports x 4 items exceed the executor's path budget)
+    return [mp.XOb("X-import_visibility", "", "", lambda: run_visibility(P, R, mp, log_dir, 3)),
             mp.XOb("X-import_filter", "", "", lambda: run_import_filter(P, R, mp, log_dir, 3 if tier == "quick" else 4))]
 
 
@@ -26,7 +27,7 @@ def run_import_filter(P, R, mp, log_dir, bound):
     import tc_props
     t0 = time.time()
     f = tc_props.find_fn(P, "import_module")
-    ex = mirx.make_executor(P, R, max_paths=500000)
+    ex = mirx.make_executor(P, R, max_paths=500000 if bound <= 3 else 30000000)
     ex.opaque_calls = mirx.slice_opaque
     ex.model_sequences = True
     ex.seq_bound = bound
@@ -274,13 +275,24 @@ def native_visibility(r, why, log_dir):
         binp = kani.build_replay(prof, True, log_dir)
         rc, out, _, to = common.run([binp, "visibility"], timeout=120)
         lines = dict(re.findall(r"^VIS (\S+) (.*)$", out, re.M))
-        want = {"pub_fn": "ACCEPTED", "private_fn": "REJECTED", "pub_type": "ACCEPTED", "private_const": "REJECTED", "pub_variant": "ACCEPTED",
-                "mixed": "REJECTED", "nested_private": "REJECTED", "nested_pub": "ACCEPTED", "unknown_module": "ACCEPTED"}
-        for k, w in want.items():
-            if not lines.get(k, "").startswith(w):
+        # scenario -> (verdict, a visibility diagnostic expected?)
+        want = {"pub_fn": ("ACCEPTED", False), "private_fn": ("REJECTED", True), "pub_type": ("ACCEPTED", False), "private_const": ("REJECTED", True),
+                "pub_variant": ("ACCEPTED", False), "mixed": ("REJECTED", True), "nested_private": ("REJECTED", True), "nested_pub": ("ACCEPTED", False),
+                "unknown_module": (None, False), "private_trait_use": ("REJECTED", False), "pub_trait_use": ("ACCEPTED", False)}
+        # (`private_model_use` - an un-imported private model named in a parameter annotation - is printed by the runner but not judged:
+        #  the checker accepts unknown type names in annotations, imported or not, which is not an import-visibility matter)
+        for k, (verdict, vis) in want.items():
+            line = lines.get(k)
+            if line is None:
                 broken = True
-                texts.append(f"[{prof}] {k}: expected {w}, checker says {lines.get(k, out.strip()[-120:])[:140]}")
-    text = "; ".join(texts) or "9 import scenarios (pub / private items of flat and nested modules, enum variants) are accepted / rejected as documented"
+                texts.append(f"[{prof}] {k}: no verdict ({out.strip()[-120:]})")
+                continue
+            has_vis = re.search(r"visibility=([1-9])", line) is not None
+            bad_ = (verdict is not None and not line.startswith(verdict)) or (has_vis != vis)
+            if bad_:
+                broken = True
+                texts.append(f"[{prof}] {k}: expected {verdict or 'no visibility diagnostic'}{' with a visibility diagnostic' if vis else ''}, checker says {line[:140]}")
+    text = "; ".join(texts) or "11 import scenarios (pub / private functions, types, consts, traits of flat and nested modules, enum variants) are accepted / rejected as documented"
     r["native"] = text
     if broken:
         os.makedirs(os.path.join(common.REPLAYS_DIR, "MIRX"), exist_ok=True)
